@@ -401,7 +401,7 @@ def run_api(res, scratch, tier, seed, prop, owners):
     nbeh = 1500 if tier == "quick" else 12000
     depth = 24 if tier == "quick" else 40
     slots = [1, 2] if tier == "quick" else [1, 2, 3]
-    t = run_tlc(scratch, "Api", api_cfg(slots, depth, [-1, 0, 1, 2, 3], [0, 1, 3], [0, 2], ["EmitPools"]), "api_sim",
+    t = run_tlc(scratch, "Api", api_cfg(slots, depth, [-1, 0, 1, 2, 3], [0, 1, 3], [0, 2], ["EmitPools"], flags=(0, 1, 2)), "api_sim",
                 simulate=max(1, nbeh // NCPU), depth=depth + 3, timeout=1500, extra=("-seed", str(seed)))
     if t["status"] not in ("ok", "timeout") and "states generated" not in t["tail"]:
         raise Infra("TLC Api simulate: %s\n%s" % (t["status"], t["tail"][-3000:]))
@@ -487,7 +487,7 @@ def corpus_entries(tier, seed, kinds):
     if "amb_chains" in kinds:
         ents += _corpus.ambig_chain_family() + _corpus.depth_chain_family()
     if "loops" in kinds:
-        ents += _corpus.loop_shapes() + _corpus.loop_repeats()
+        ents += _corpus.loop_shapes() + _corpus.loop_repeats() + _corpus.access_after_unproductive()
     if "chains" in kinds:
         ents += _corpus.chain_family(5) + _corpus.loop_via_late_nullable()
         if tier == "thorough":
